@@ -128,7 +128,7 @@ func runIter(c *core.C, st *stats, f *family, e *env) {
 			who, ok := owner[string(it.Key())]
 			if !ok {
 				// not written at the key the harness expected: attribute it by its value where that names the owner
-				who = fmt.Sprintf("untracked %q(%s)", it.Key(), it.Value())
+				who = fmt.Sprintf("untracked(%s)", it.Value())
 			}
 			if who != self {
 				out = append(out, who)
